@@ -30,6 +30,9 @@ type EstCase struct {
 	G       []int       `json:"log_weight_index"` // indexes into {0, log 1/2, log 1/4}; null = no weights (gamma nil)
 	// common offset added to every log-weight (shift-invariance family; 0 = the plain cases)
 	Shift float64 `json:"log_weight_shift,omitempty"`
+	// the estimator runs as thread Pool.Caller of a pool of Pool.Threads threads (pool.go); all other
+	// threads execute nothing, so every job of the estimator is executed by the calling thread
+	Pool *PoolSpec `json:"pool,omitempty"`
 }
 
 func guard(f func() error) (err error) {
@@ -131,6 +134,16 @@ func (cs *EstCase) weights() (ad.ConstVector, []float64) {
 // libEstimate runs the library and returns the estimated parameters
 func libEstimate(cs *EstCase) (th []float64, err error) {
 	err = guard(func() error {
+		return runOnPool(cs.Pool, nil, func(p threadpool.ThreadPool) error { return libEstimateOn(cs, p, &th) })
+	})
+	return
+}
+
+// libEstimateOn: the estimator of the case with pool value p (executed by the thread p belongs to)
+func libEstimateOn(cs *EstCase, p threadpool.ThreadPool, thp *[]float64) (err error) {
+	{
+		th := *thp
+		defer func() { *thp = th }()
 		gamma, _ := cs.weights()
 		gk := func(k int) ad.ConstScalar {
 			if gamma == nil {
@@ -150,11 +163,11 @@ func libEstimate(cs *EstCase) (th []float64, err error) {
 			}
 			var d st.ScalarPdf
 			if cs.Variant == "batch" {
-				if err := b.Initialize(pool1); err != nil {
+				if err := b.Initialize(p); err != nil {
 					return err
 				}
 				for k := range cs.X {
-					if err := b.NewObservation(ad.ConstFloat64(cs.X[k][0]), gk(k), pool1); err != nil {
+					if err := b.NewObservation(ad.ConstFloat64(cs.X[k][0]), gk(k), p); err != nil {
 						return err
 					}
 				}
@@ -162,7 +175,7 @@ func libEstimate(cs *EstCase) (th []float64, err error) {
 					return err
 				}
 			} else {
-				if err := e.EstimateOnData(x, gamma, pool1); err != nil {
+				if err := e.EstimateOnData(x, gamma, p); err != nil {
 					return err
 				}
 				if d, err = e.GetEstimate(); err != nil {
@@ -224,11 +237,11 @@ func libEstimate(cs *EstCase) (th []float64, err error) {
 		var d st.VectorPdf
 		var err error
 		if cs.Variant == "batch" {
-			if err := b.Initialize(pool1); err != nil {
+			if err := b.Initialize(p); err != nil {
 				return err
 			}
 			for k := range xs {
-				if err := b.NewObservation(xs[k], gk(k), pool1); err != nil {
+				if err := b.NewObservation(xs[k], gk(k), p); err != nil {
 					return err
 				}
 			}
@@ -236,7 +249,7 @@ func libEstimate(cs *EstCase) (th []float64, err error) {
 				return err
 			}
 		} else {
-			if err := e.EstimateOnData(xs, gamma, pool1); err != nil {
+			if err := e.EstimateOnData(xs, gamma, p); err != nil {
 				return err
 			}
 			if d, err = e.GetEstimate(); err != nil {
@@ -245,8 +258,7 @@ func libEstimate(cs *EstCase) (th []float64, err error) {
 		}
 		th, err = pdfParams(cs.Family, d)
 		return err
-	})
-	return
+	}
 }
 
 func ekey(cs *EstCase, quantity, wh string) string {
@@ -262,8 +274,38 @@ func ekey(cs *EstCase, quantity, wh string) string {
 	conf := cs.Conf
 	if cs.Family == "scalariid" {
 		conf = conf[:1] // the dimension is part of the witness, not of the signature
+		if len(cs.X) > 1 {
+			g += ",lengths=" + lengthProfile(cs.X)
+		}
 	}
-	return fmt.Sprintf("%s.%s|conf=%v,%s|%s|%s", cs.Family, cs.Variant, conf, g, quantity, wh)
+	variant := cs.Variant
+	if cs.Pool != nil {
+		variant += cs.Pool.label()
+	}
+	return fmt.Sprintf("%s.%s|conf=%v,%s|%s|%s", cs.Family, variant, conf, g, quantity, wh)
+}
+
+// lengthProfile classifies the lengths of the observations of a data set:
+// equal | increasing | decreasing (weakly monotone, not all equal) | mixed
+func lengthProfile(X [][]float64) string {
+	up, down := true, true
+	for i := 1; i < len(X); i++ {
+		if len(X[i]) < len(X[i-1]) {
+			up = false
+		}
+		if len(X[i]) > len(X[i-1]) {
+			down = false
+		}
+	}
+	switch {
+	case up && down:
+		return "equal"
+	case up:
+		return "increasing"
+	case down:
+		return "decreasing"
+	}
+	return "mixed"
 }
 
 func runEstCase(c *vf.Ctx, cs *EstCase, idx int64) {
@@ -432,6 +474,37 @@ func runClosed(c *vf.Ctx, nmax int) {
 		}
 	}
 	runShift(c, &idx)
+	// pools of 2 and 3 threads, the estimator running as thread c = 0..T-1 (every job of the
+	// estimator is executed by the calling thread; for c != 0 the accumulators of thread 0 stay
+	// untouched): every family x every data set of size 1..3 x every weight vector
+	for T := 2; T <= 3; T++ {
+		for cl := 0; cl < T; cl++ {
+			for _, f := range closedFamilies() {
+				for _, conf := range f.confs {
+					if f.family == "vnormal" && conf[0] > 1e-8 {
+						// the active variance bound of the vector normal is an open finding of the
+						// sequential cases already (covariances kept); nothing new to learn here
+						continue
+					}
+					for n := 1; n <= 3; n++ {
+						gs := append([][]int{nil}, tuples(n, 3)...)
+						for _, xi := range tuples(n, len(f.alph)) {
+							X := make([][]float64, n)
+							for k, v := range xi {
+								X[k] = f.alph[v]
+							}
+							for _, g := range gs {
+								each(EstCase{Family: f.family, Variant: "estimate", Conf: conf, X: X, G: g, Pool: &PoolSpec{Threads: T, Caller: cl}})
+								if f.batch {
+									each(EstCase{Family: f.family, Variant: "batch", Conf: conf, X: X, G: g, Pool: &PoolSpec{Threads: T, Caller: cl}})
+								}
+							}
+						}
+					}
+				}
+			}
+		}
+	}
 	// ScalarIid: (a) one observation vector of dimension d, estimator dimension d,
 	// (b) several vectors with estimator dimension -1 (variable), unweighted
 	vals := []float64{-1, 0, 0.5, 2}
@@ -456,8 +529,37 @@ func runClosed(c *vf.Ctx, nmax int) {
 				each(EstCase{Family: "scalariid", Variant: "estimate", Conf: []float64{smin, -1}, X: X, G: nil})
 			}
 		}
+		// (c) observations of DIFFERENT lengths (estimator dimension -1): every observation is
+		// the prefix of length 1..3 of one of the template vectors, i.e. every length profile
+		// (equal, increasing, decreasing, mixed) of 1..4 observations, crossed with every
+		// log-weight vector ({nil} u {0,log 1/2,log 1/4}^n: nil, uniform and mixed weights)
+		tmpl := raggedTemplates[:2]
+		if nmax > 4 {
+			tmpl = raggedTemplates
+		}
+		var obs [][]float64
+		for _, t := range tmpl {
+			for l := 1; l <= len(t); l++ {
+				obs = append(obs, t[:l])
+			}
+		}
+		for n := 1; n <= 4; n++ {
+			gs := append([][]int{nil}, tuples(n, 3)...)
+			for _, xi := range tuples(n, len(obs)) {
+				X := make([][]float64, n)
+				for k, v := range xi {
+					X[k] = obs[v]
+				}
+				for _, g := range gs {
+					each(EstCase{Family: "scalariid", Variant: "estimate", Conf: []float64{smin, -1}, X: X, G: g})
+				}
+			}
+		}
 	}
 }
+
+// template vectors of the ragged ScalarIid data sets (values of the family's 4-value alphabet)
+var raggedTemplates = [][]float64{{-1, 0.5, 2}, {2, 0, 0}, {0.5, -1, -1}}
 
 /* invariance under a common offset of the log-weights
  * -------------------------------------------------------------------------- */
